@@ -539,16 +539,28 @@ def run_cases(mod, cases, known, violations, known_hits, record=True):
     impl_outs = []
     hist = Counter()
     errs = Counter()
+    skipped_expensive = 0
+    kept = []
     for c in cases:
         try:
             o = with_timeout(mod.impl, c)
-        except (Exception, CaseTimeout) as e:  # harness bug, impl API break or hang: an observable
+        except CaseTimeout as e:
+            # a SMALL case that does not finish is an observable (termination is part of C14); a LARGE generated case
+            # that exceeds the per-case cap on a loaded machine is only expensive (valid formulas such as
+            # `(big sum)**3` take minutes): it is counted in the evidence and left out, never reported
+            if len(canonical(c)) > int(os.environ.get("VERIF_EXPENSIVE_CHARS", "600")):
+                skipped_expensive += 1
+                continue
             o = {"harness_exception": type(e).__name__ + ": " + str(e)[:200]}
+        except Exception as e:  # harness bug or impl API break: an observable
+            o = {"harness_exception": type(e).__name__ + ": " + str(e)[:200]}
+        kept.append(c)
         impl_outs.append(o)
         try:
             hist[mod.describe(c)] += 1
         except Exception:
             pass
+    cases = kept
     reqs = []
     for c, o in zip(cases, impl_outs):
         r = dict(mod.request(c, o))
@@ -608,6 +620,7 @@ def run_cases(mod, cases, known, violations, known_hits, record=True):
         input_distribution=dict(hist.most_common(40)),
         error_kinds=dict(errs),
         correspondence_stream=getattr(mod, "ENGINE"),
+        skipped_expensive_cases=skipped_expensive,
     )
     return dict(cov=cov, disagreements=disagreements)
 
